@@ -630,6 +630,21 @@ impl Model {
                 fx.created_datasets += 1;
                 Outcome::Ok { handle: Some(h) }
             }
+            Op::AddKey { s, key } => {
+                if key.is_empty() || key.starts_with('!') {
+                    return Outcome::Skip;
+                }
+                let Some(uid) = self.set_target(s).uid else { return Outcome::Err };
+                let set = &mut self.datasets[uid];
+                if let Some(k) = set.keys.iter().find(|k| k.live && &k.id == key) {
+                    // an identical item is not inserted twice: the existing handle is returned
+                    return Outcome::Ok { handle: Some(k.handle) };
+                }
+                let handle = set.key_slots;
+                set.key_slots += 1;
+                set.keys.push(MKey { id: key.clone(), live: true, handle });
+                Outcome::Ok { handle: Some(handle) }
+            }
             Op::InsertData {
                 set,
                 id,
